@@ -216,7 +216,83 @@ func runStale(c *xs.Ctx, r *xs.Result, qsr int64, before int) {
 	if !sawActive {
 		panic(fmt.Sprintf("harness: the fusion was never active: %v", se.fusedAt))
 	}
+	runStaleMixed(c, r, qsr, before)
 	r.Add("acct_states", fmt.Sprintf("stale-F%d-before%d", qsr, before))
 	r.Add("nontrivial", fmt.Sprintf("acct:stale-F%d-before%d", qsr, before))
 	r.Count("stale_histories", 1)
+}
+
+// runStaleMixed: j unconfirmed blocks that acknowledged the last momentum at which the fusion was active (each took the
+// base plasma out of it), then every candidate on top of them acknowledging that momentum or any later one (the fusion
+// is cancelled there). The statement's subtraction must hold at the acknowledged momentum: accepted ⇒
+// fused ≤ plasma(QSR fused at the acknowledged momentum) − Σ fused of the unconfirmed blocks — in particular nothing
+// at all once the unconfirmed blocks alone exceed what is (still) fused.
+func runStaleMixed(c *xs.Ctx, r *xs.Result, qsr int64, before int) {
+	for j := 1; j <= 2; j++ {
+		se := newStaleEnv(c, qsr, before)
+		e := se.env
+		frontier := e.ack.Height
+		var hAct uint64
+		for i := uint64(1); i <= frontier; i++ {
+			if se.fusedAt[i] > 0 {
+				hAct = i
+			}
+		}
+		st := &mstate{Prev: e.n.Chain.GetFrontierAccountStore(e.addr).Identifier()}
+		e.ack = se.ids[hAct]
+		unconf := uint64(0)
+		for i := 0; i < j; i++ {
+			nn := e.nonces(st, 0)
+			tx, err := e.apply(e.build(st, cand{K: 0, F: refBasePlasma, P: powNone}, nn))
+			if err != nil {
+				break
+			}
+			if err := e.insert(tx); err != nil {
+				break
+			}
+			st.Prev = tx.Block.Identifier()
+			st.Blocks++
+			unconf += refBasePlasma
+		}
+		if unconf == 0 {
+			se.n.Destroy()
+			continue
+		}
+		nn := e.nonces(st, 0)
+		for h := hAct; h <= frontier; h++ {
+			left := uint64(0)
+			if se.fusedAt[h] > unconf {
+				left = se.fusedAt[h] - unconf
+			}
+			dom := map[uint64]bool{unconf: true, unconf + 1: true}
+			if unconf > refBasePlasma {
+				dom[unconf-refBasePlasma] = true
+			}
+			for _, ki := range []int{0, 3} {
+				for _, f := range fusedDomain(kinds[ki].Base, left, 0, false) {
+					dom[f] = true
+				}
+				for f := range dom {
+					cd := cand{K: ki, F: f, P: powNone}
+					e.ack = se.ids[h]
+					_, err := e.apply(e.build(st, cd, nn))
+					r.Count("stale_mixed_candidates", 1)
+					r.Count("transitions", 1)
+					if err == nil {
+						r.Count("stale_mixed_accepted", 1)
+						if f > left {
+							r.Violate("C12:acct:stale-acknowledged-momentum:fused-exceeds-what-is-left-after-unconfirmed-blocks",
+								fmt.Sprintf("%d QSR fused then cancelled; %d unconfirmed blocks took %d plasma while acknowledging momentum %d (fusion active); on top of them a %s block with FusedPlasma=%d acknowledging momentum %d is accepted although the QSR fused for the account at that momentum provides %d, i.e. %d after subtracting the unconfirmed blocks",
+									qsr, j, unconf, hAct, kinds[ki].Name, f, h, se.fusedAt[h], left),
+								staleReplay{Part: "stale", QSR: qsr, Before: before, Ack: h, K: ki, F: f})
+						}
+					} else {
+						r.Count("stale_mixed_rejected", 1)
+						r.Count("stale_mixed_rejected:"+errReason(err), 1)
+					}
+				}
+			}
+		}
+		se.n.Destroy()
+	}
 }
